@@ -3,6 +3,8 @@
 package main
 
 import (
+	"go/format"
+	"go/token"
 	"encoding/json"
 	"flag"
 	"fmt"
@@ -40,6 +42,7 @@ func main() {
 	explain := flag.String("explain", "", "replay file to re-evaluate")
 	dump := flag.String("dump", "", "debug: dump paths of function key")
 	dumpSQL := flag.Bool("dumpsql", false, "debug: dump the sqlite model")
+	dumpCanon := flag.String("canon", "", "debug: print the canonicalised body of function key")
 	flag.Parse()
 
 	seed := 0
@@ -63,6 +66,16 @@ func main() {
 	}
 	if *dumpSQL {
 		dumpSQLModel(p)
+		return
+	}
+	if *dumpCanon != "" {
+		fn := p.Funcs[*dumpCanon]
+		if fn == nil {
+			fmt.Println("no such function")
+			os.Exit(2)
+		}
+		format.Node(os.Stdout, token.NewFileSet(), fn.Decl)
+		fmt.Println()
 		return
 	}
 	known, err := loadKnown(*knownPath)
